@@ -28,38 +28,92 @@ def _fr(c):
     return Fraction(int(c.numerator), int(c.denominator))
 
 
-def decision_bounds(c):
-    """bounds |gen| <= b implied by decisions of the form  Q <= const  with Q a
-    positive diagonal quadratic form in single generators"""
-    alg = c.alg
+def _root_up(fr, k):
+    """rational r with r**k >= fr"""
+    r = Fraction(float(fr) ** (1.0 / k) * (1 + 1e-9) + 1e-300)
+    while r ** k < fr:
+        r = r * Fraction(1000001, 1000000)
+    return r
+
+
+def _root_down(fr, k):
+    r = Fraction(float(fr) ** (1.0 / k) * (1 - 1e-9))
+    while r ** k > fr:
+        r = r * Fraction(999999, 1000000)
+    return r
+
+
+def _const_term(p):
+    for mon, coef in p.items():
+        if sum(mon) == 0:
+            return _fr(coef)
+    return Fraction(0)
+
+
+def _diag_quadratic(alg, q):
+    """q == sum a_i g_i^2 with a_i > 0 ?  -> dict gen name -> a_i, else None"""
     names = list(alg.gen.keys())
-    out = {}
+    quad = {}
+    for mon, coef in q.items():
+        nz = [(i, ex) for i, ex in enumerate(mon) if ex]
+        if len(nz) == 1 and nz[0][1] == 2 and _fr(coef) > 0:
+            quad[names[nz[0][0]]] = _fr(coef)
+        else:
+            return None
+    return quad or None
+
+
+def decision_facts(c):
+    """(upper, lower): bounds |gen| <= u, gen >= l (> 0) implied by the path's decisions.
+    Recognised facts:  Q <= const (Q positive diagonal quadratic form),  R^k <= const,  R^k >= const
+    for square-root generators R (R >= 0)."""
+    if getattr(c, "_dfacts", None) is not None:
+        return c._dfacts
+    alg = c.alg
+    upper, lower = {}, {}
+    sqrt_gens = [(name, atom.args[0]) for name, (atom, role) in alg.gen_atom.items() if atom.kind == "sqrt"]
+
+    def up(g, b):
+        if g not in upper or b < upper[g]:
+            upper[g] = b
+
+    def lo(g, b):
+        if g not in lower or b > lower[g]:
+            lower[g] = b
+
     for d in c.path.decisions:
         if d.rel != "lt":
             continue
-        p = alg.nf(alg.P(d.b) - alg.P(d.a))      # fact: p > 0 (val) or p <= 0 (not val)
-        e = p if d.val else -p                    # fact: e > 0 or e >= 0
-        const = Fraction(0)
-        quad = {}
-        ok = True
-        for mon, coef in e.items():
-            deg = sum(mon)
-            if deg == 0:
-                const = _fr(coef)
-                continue
-            nz = [(i, ex) for i, ex in enumerate(mon) if ex]
-            if len(nz) == 1 and nz[0][1] == 2 and _fr(coef) < 0:
-                quad[names[nz[0][0]]] = -_fr(coef)
-            else:
-                ok = False
-                break
-        if not ok or const <= 0 or not quad:
-            continue
-        for g, a in quad.items():
-            b = _sqrt_up(const / a)
-            if g not in out or b < out[g]:
-                out[g] = b
-    return out
+        raw = alg.P(d.b) - alg.P(d.a)            # fact: raw > 0 (val) or raw <= 0 (not val)
+        for p in (raw, alg.nf(raw)):
+            e = p if d.val else -p                # fact: e > 0 or e >= 0
+            const = _const_term(e)
+            rest = e - alg.const(const)
+            if const > 0:
+                quad = _diag_quadratic(alg, -rest)
+                if quad:
+                    for g, a in quad.items():
+                        up(g, _sqrt_up(const / a))
+            for (rn, rarg) in sqrt_gens:
+                R = alg.gen[rn]
+                for k in range(1, 7):
+                    if const > 0 and alg.is_zero(rest + R ** k):
+                        up(rn, _root_up(const, k))
+                    if const < 0 and alg.is_zero(rest - R ** k):
+                        lo(rn, _root_down(-const, k))
+    # propagate an upper bound of R = sqrt(sum a_i v_i^2) to the v_i
+    for (rn, rarg) in sqrt_gens:
+        if rn in upper:
+            quad = _diag_quadratic(alg, rarg)
+            if quad:
+                for g, a in quad.items():
+                    up(g, upper[rn] / _root_down(a, 2))
+    c._dfacts = (upper, lower)
+    return c._dfacts
+
+
+def decision_bounds(c):
+    return decision_facts(c)[0]
 
 
 def gen_bounds(c, scale):
@@ -116,6 +170,11 @@ def gen_bounds(c, scale):
             rb = poly_bound(alg, rest, b)
             if rb is not None and rb < abs(c0):
                 val = 1 / (abs(c0) - rb)
+            # 1/R for a generator R with a positive lower bound from the path condition
+            lowers = decision_facts(c)[1]
+            for gname, lb in lowers.items():
+                if f == alg.gen[gname] and lb > 0:
+                    val = 1 / lb
         elif k == "atan2":
             val = Fraction(355, 113) + Fraction(1, 1000)
         if name in db and (val is None or db[name] < val):
@@ -152,7 +211,12 @@ def poly_bound(alg, p, bounds):
 
 
 def expand_trig(c, p, bounds):
-    """replace trig generators whose argument is small by Taylor polynomial + remainder"""
+    """replace trig generators whose argument a is small by Taylor polynomial + a^n * sigma with a
+    bounded remainder factor sigma (A-TAYLOR, alternating-series remainder):
+       sin a = a - a^3/6 + a^5/120 - a^7/5040 + a^9 * ss,   |ss| <= 1/362880
+       cos a = 1 - a^2/2 + a^4/24 - a^6/720 + a^8 * sc,     |sc| <= 1/40320
+    Writing the remainder as a power of a times a bounded factor lets inverse powers of the
+    angle cancel exactly in the normal form."""
     alg = c.alg
     subs = []
     for (sn, cn) in alg.trig_gens:
@@ -168,18 +232,19 @@ def expand_trig(c, p, bounds):
             rs = alg.new_gen(("taylor_rem_sin", a))
             rc = alg.new_gen(("taylor_rem_cos", a))
             from engine.alg import Atom
-            alg.gen_atom[rs] = (Atom("taylor_rem", (rs,), (a,), ab ** 7 / 5040), "rem")
-            alg.gen_atom[rc] = (Atom("taylor_rem", (rc,), (a,), ab ** 6 / 720), "rem")
-            S = a - a ** 3 * alg.const(Fraction(1, 6)) + a ** 5 * alg.const(Fraction(1, 120)) + alg.gen[rs]
-            Cc = alg.R.one - a ** 2 * alg.const(Fraction(1, 2)) + a ** 4 * alg.const(Fraction(1, 24)) + alg.gen[rc]
-            c._taylor_cache[key] = (S, Cc, rs, rc, ab)
-        S, Cc, rs, rc, ab = c._taylor_cache[key]
-        bounds[rs] = ab ** 7 / 5040
-        bounds[rc] = ab ** 6 / 720
+            alg.gen_atom[rs] = (Atom("taylor_rem", (rs,), (a,), Fraction(1, 362880)), "rem")
+            alg.gen_atom[rc] = (Atom("taylor_rem", (rc,), (a,), Fraction(1, 40320)), "rem")
+            q = lambda n, d: alg.const(Fraction(n, d))
+            S = a - a ** 3 * q(1, 6) + a ** 5 * q(1, 120) - a ** 7 * q(1, 5040) + a ** 9 * alg.gen[rs]
+            Cc = (alg.R.one - a ** 2 * q(1, 2) + a ** 4 * q(1, 24) - a ** 6 * q(1, 720) + a ** 8 * alg.gen[rc])
+            c._taylor_cache[key] = (S, Cc, rs, rc)
+        S, Cc, rs, rc = c._taylor_cache[key]
+        bounds[rs] = Fraction(1, 362880)
+        bounds[rc] = Fraction(1, 40320)
         subs.append((alg.gen[sn], S))
         subs.append((alg.gen[cn], Cc))
     if subs:
-        p = p.compose(subs)
+        p = alg.nf(p.compose(subs))
     return p
 
 
